@@ -1539,6 +1539,7 @@ func (l *lexer) scanCmdSubst(r rune) bool {
 			heredoc:  heredoc{c: make(chan struct{}, 1)},
 			line:     l.line,
 			col:      l.col,
+			pos:      l.pos,
 		}
 		ll.mark(off)
 		ll.last.Store(ll.pos)
